@@ -40,11 +40,178 @@ def jn(x):
     return {"__repr__": repr(x)}
 
 
+
+# ----------------------------------------------------------------------------- the call-site layer (public API)
+
+
+def _limit(v):
+    if v == "none":
+        return None
+    if isinstance(v, dict) and "__int__" in v:
+        return int(v["__int__"])
+    return v
+
+
+def _cols(cols, kind):
+    cols = unj(cols)
+    if kind == "single":
+        return cols[0]
+    if kind == "tuple":
+        return tuple(cols)
+    if kind == "set":
+        return set(cols)
+    return list(cols)
+
+
+def _frame(names, rows, lazy):
+    from orso import DataFrame
+
+    rows = [tuple(unj(r)) for r in rows]
+    if lazy:
+        return DataFrame(rows=(r for r in rows), schema=list(names))
+    return DataFrame(rows=rows, schema=list(names))
+
+
+def _public_collect(frame, c):
+    cols = _cols(c["cols"], c.get("ckind", "list"))
+    if c.get("via") == "getitem":
+        return jn(frame[cols])
+    if "limit" in c:
+        return jn(frame.collect(cols, _limit(c["limit"])))
+    return jn(frame.collect(cols))
+
+
+def _display(frame, c):
+    from orso.display import ascii_table
+
+    via = c.get("via", "ascii")
+    if via == "ascii":
+        return ascii_table(frame, limit=c["limit"], display_width=False, max_column_width=c.get("mcw", 500),
+                           colorize=False, top_and_tail=bool(c.get("tt", True)), show_types=False)
+    if via == "display":
+        return frame.display(limit=c["limit"], display_width=False, max_column_width=c.get("mcw", 500),
+                             colorize=False, show_types=False)
+    if via == "markdown":
+        return frame.markdown(limit=c["limit"], max_column_width=c.get("mcw", 500))
+    return str(frame)
+
+
+def _rows_of(frame):
+    r = frame._rows
+    return [jn(list(x)) for x in r] if isinstance(r, list) else None
+
+
+def _dict(st):
+    """The dictionary of a step, as a plain dict or one of the standard subclasses."""
+    import collections
+
+    d = unj(st["dict"])
+    k = st.get("dict_kind", "dict")
+    if k == "ordered":
+        return collections.OrderedDict(d)
+    if k == "default":
+        dd = collections.defaultdict(lambda: "from __missing__")
+        dd.update(d)
+        return dd
+    if k == "counter":
+        c = collections.Counter()
+        c.update({kk: v for kk, v in d.items()})
+        return c if all(isinstance(v, int) and not isinstance(v, bool) for v in d.values()) else d
+    return d
+
+
+def run_step(st, frames, classes):
+    from orso import DataFrame
+    from orso import Row
+
+    op = st["op"]
+    if "frame" in st and st["frame"] not in frames:
+        return {"skip": True}
+    if "cls" in st and st["cls"] not in classes:
+        return {"skip": True}
+    if op == "frame":
+        frames[st["id"]] = _frame(st["names"], st["rows"], st.get("lazy", False))
+        return {"ok": None}
+    if op == "dicts":
+        f = DataFrame([unj(d) for d in st["dicts"]])
+        frames[st["id"]] = f
+        return {"ok": _rows_of(f), "names": list(f.column_names)}
+    if op == "arrow":
+        import pyarrow
+
+        f = DataFrame.from_arrow(pyarrow.table({n: unj(c) for n, c in zip(st["names"], st["cols"])}))
+        frames[st["id"]] = f
+        return {"ok": None}
+    if op == "class":
+        fields = list(st["fields"]) if st.get("via", "list") == "list" else tuple(st["fields"])
+        if st.get("tuples_only"):
+            classes[st["id"]] = Row.create_class(fields, tuples_only=True)
+        else:
+            classes[st["id"]] = Row.create_class(fields)
+        return {"ok": None}
+    if op == "row":
+        cls = classes[st["cls"]]
+        data = _dict(st) if "dict" in st else tuple(unj(st["tuple"]))
+        return {"ok": jn(list(cls(data)))}
+    if op == "append":
+        f = frames[st["frame"]]
+        entry = _dict(st) if "dict" in st else tuple(unj(st["tuple"]))
+        f.append(entry)
+        return {"ok": jn(list(f._rows[-1])), "count": len(f._rows)}
+    if op == "collect":
+        return {"ok": _public_collect(frames[st["frame"]], st)}
+    if op == "derive":
+        f = frames[st["frame"]]
+        how = st["how"]
+        if how == "head":
+            g = f.head(st["k"])
+        elif how == "tail":
+            g = f.tail(st["k"])
+        elif how == "slice":
+            g = f.slice(st["offset"], st["length"])
+        elif how == "select":
+            g = f.select(list(st["names"]))
+        else:
+            raise SystemExit("bad derive")
+        frames[st["id"]] = g
+        return {"ok": _rows_of(g), "names": list(g.column_names), "parent": _rows_of(f)}
+    if op == "display":
+        return {"ok": _display(frames[st["frame"]], st)}
+    if op == "bytes":
+        cls = classes[st["cls"]]
+        b = cls(tuple(unj(st["tuple"]))).as_bytes
+        m = st.get("mangle")
+        if m:
+            if m["kind"] == "truncate":
+                b = b[: m["n"]]
+            elif m["kind"] == "flip" and b:
+                pos = m["pos"] % len(b)
+                b = b[:pos] + bytes([m["val"] % 256]) + b[pos + 1 :]
+            elif m["kind"] == "extend":
+                b = b + bytes(m["n"])
+        return {"ok": jn(list(cls.from_bytes(b)))}
+    raise SystemExit("bad op")
+
+
+def run_seq(case):
+    frames, classes, out = {}, {}, []
+    for st in case["steps"]:
+        try:
+            out.append(run_step(st, frames, classes))
+        except Exception as e:
+            out.append({"raises": type(e).__name__})
+    return out
+
+
 def run(case):
     import numpy
     from orso.compute import compiled
 
     fn = case["fn"]
+    if fn == "pcollect":
+        return _public_collect(_frame(case["names"], case["rows"], case.get("lazy", False)), case)
+    if fn == "seq":
+        return run_seq(case)
     if fn == "collect":
         rows = []
         for r, k in zip(case["rows"], case["kinds"]):
@@ -96,6 +263,7 @@ def run(case):
 
 def main():
     repo = sys.argv[1]
+    os.environ["COLUMNS"] = "400"  # str(frame) asks the terminal for its width
     sys.path.insert(0, repo)
     sys.path.insert(0, os.path.dirname(os.path.dirname(os.path.abspath(__file__))))
     try:
